@@ -15,7 +15,7 @@ ASSUMPTIONS = ["grammars: extracted (real extract) from an E1(m, n) tree r times
                "files live in the in-memory file system; PMCFG, LoPar and RCG texts are decoded by the harness's own "
                "decoders (function names fun<N>, sequences s<K>, count lines; 'count LHS RHS' lines; predicates "
                "LABEL<fanout>(args))"]
-OUTSIDE = ["labels with parentheses or a trailing digit", "grammars from more than two distinct trees"]
+OUTSIDE = ["option values other than present/absent (e.g. lex_in_grammar:0)", "labels with parentheses or a trailing digit", "grammars from more than two distinct trees"]
 ENCS = ["utf-8", "latin-1", "utf-16"]
 WORDS = ["a", "USA", "Ä", "Haus", "a"] + ["w" + chr(91 + i) for i in range(6, 16)]
 POS = ["P", "Q", "P", "Q", "Q"] + ["T" + chr(59 + i) for i in range(6, 16)]
